@@ -358,6 +358,30 @@ func logSafeChild(args []string) {
 		}
 	}
 	lateMu.Unlock()
+	if s.multi != nil {
+		// two composites built from the same member slice (with spare capacity) must not share anything:
+		// a member appended to one of them is a member of that one only
+		mk := func() *logs.StringLoggers { l, _ := logs.NewPlainStringLogger(); return l }
+		shared := make([]logs.Loggers, 0, 4)
+		shared = append(shared, mk(), mk())
+		var a, b logs.IMultipleLoggers
+		if name == "multiple" {
+			a, _ = logs.NewMultipleLoggers("a", shared...)
+			b, _ = logs.NewMultipleLoggers("b", shared...)
+		} else {
+			a, _ = logs.NewCombinedLoggers(shared...)
+			b, _ = logs.NewCombinedLoggers(shared...)
+		}
+		ma, mb := mk(), mk()
+		_ = a.Append(ma)
+		_ = b.Append(mb)
+		a.Log(logMsg(1, 777, false))
+		b.Log(logMsg(2, 778, false))
+		if strings.Count(ma.GetLogContent(), logMsg(1, 777, false)) != 1 || strings.Contains(mb.GetLogContent(), logMsg(1, 777, false)) ||
+			strings.Count(mb.GetLogContent(), logMsg(2, 778, false)) != 1 || strings.Contains(ma.GetLogContent(), logMsg(2, 778, false)) {
+			fmt.Printf("FAIL appended-member-misses-messages:%s | two composites built from one member slice: a member appended to one receives the other's messages (or none)\n", name)
+		}
+	}
 	_ = s.loggers.Close()
 	fmt.Println("DONE")
 }
